@@ -128,7 +128,7 @@ def note_cell_from(ns, layouts_):
 
 @st.composite
 def kern_data_cells(draw, chords=True, acc=True, sigs=True, grace=True, rest_in_chord=True, null_weight=2, rule_iv=True,
-                    ext=False):
+                    ext=False, chord_optional_dur=False):
     x = draw(st.integers(0, 11))
     if x < null_weight:
         return null_cell()
@@ -144,6 +144,8 @@ def kern_data_cells(draw, chords=True, acc=True, sigs=True, grace=True, rest_in_
                 ns.append(draw(rests(sigs=sigs)))
             else:
                 ns.append(draw(notes(acc=acc, sigs=sigs, grace=grace, optional_dur=False, ext=ext)))
+                if chord_optional_dur and ns[:-1] and draw(st.integers(0, 2)) == 0:
+                    ns[-1]['dur'] = []  # a later chord note may leave its duration to the preceding one (C01 only)
     constrain_cell(ns, rule_iv=rule_iv)
     lays = [draw(layouts(n)) for n in ns]
     return note_cell_from(ns, lays)
@@ -185,7 +187,7 @@ def barlines(draw, number=None, hidden=False):
         num = draw(st.sampled_from(['', '1', '7', '12', '130']))
     else:
         num = str(number) if draw(st.integers(0, 3)) else ''
-    if hidden and draw(st.integers(0, 5)) == 0:
+    if hidden and draw(st.integers(0, 3)) == 0:
         # invisible barline: a barline token (it opens a measure, it is listed), deliberately not exported
         return {'k': 'bar', 't': eq + num + '-' + ty + f, 'e': eq + ty + f, 'cat': 'BARLINES', 'hidden': True}
     return {'k': 'bar', 't': eq + num + ty + f, 'e': eq + ty + f, 'cat': 'BARLINES'}
